@@ -29,6 +29,9 @@ type builtFilter struct {
 	shadowPrefix string
 	statPrefix   string
 	other        string // anything the canonical form does not cover (must stay empty)
+	// protoc-gen-validate verdict on the filter's typed config (ValidateAll): non-empty = Envoy would NACK the
+	// listener that carries this filter
+	invalid string
 	// ext_authz filter of the CUSTOM action: only the metadata matcher that enables it is compared
 	extAuthz *matcherpb.MetadataMatcher
 }
@@ -41,11 +44,17 @@ func fromHTTP(f *hcm.HttpFilter) *builtFilter {
 		if b.extAuthz == nil {
 			b.other = "ext-authz-without-enabling-metadata"
 		}
+		if err := ea.ValidateAll(); err != nil {
+			b.invalid = err.Error()
+		}
 		return b
 	}
 	if err := f.GetTypedConfig().UnmarshalTo(cfg); err != nil {
 		b.other = "not-http-rbac:" + f.GetTypedConfig().GetTypeUrl()
 		return b
+	}
+	if err := cfg.ValidateAll(); err != nil {
+		b.invalid = err.Error()
 	}
 	b.rules, b.shadow, b.shadowPrefix = cfg.Rules, cfg.ShadowRules, cfg.ShadowRulesStatPrefix
 	rest := proto.Clone(cfg).(*rbachttp.RBAC)
@@ -67,11 +76,17 @@ func fromTCP(f *listener.Filter) *builtFilter {
 		if b.extAuthz == nil {
 			b.other = "ext-authz-without-enabling-metadata"
 		}
+		if err := ea.ValidateAll(); err != nil {
+			b.invalid = err.Error()
+		}
 		return b
 	}
 	if err := f.GetTypedConfig().UnmarshalTo(cfg); err != nil {
 		b.other = "not-tcp-rbac:" + f.GetTypedConfig().GetTypeUrl()
 		return b
+	}
+	if err := cfg.ValidateAll(); err != nil {
+		b.invalid = err.Error()
 	}
 	b.rules, b.shadow, b.shadowPrefix, b.statPrefix = cfg.Rules, cfg.ShadowRules, cfg.ShadowRulesStatPrefix, cfg.StatPrefix
 	rest := proto.Clone(cfg).(*rbactcp.RBAC)
@@ -80,6 +95,16 @@ func fromTCP(f *listener.Filter) *builtFilter {
 		b.other = "extra-fields"
 	}
 	return b
+}
+
+// envoyRejects: the first ValidateAll error among the built filters ("" = Envoy accepts the config).
+func envoyRejects(fs []*builtFilter) string {
+	for _, f := range fs {
+		if f.invalid != "" {
+			return f.name + ": " + f.invalid
+		}
+	}
+	return ""
 }
 
 func canonFilters(fs []*builtFilter) string {
